@@ -835,6 +835,9 @@ def _fresh_stem(g, taken):
             s = s + "." + g.choice(_STEM_ALPHA) + g.choice(_STEM_ALPHA)   # inner dot
         elif c < 0.48:
             s = s + " " + g.choice(_STEM_ALPHA)                         # space
+        elif c < 0.60:
+            # punctuation a real file name can carry, including shell-wildcard characters
+            s = g.choice(["%s[1]", "[draft] %s", "%s[0-9]x", "%s(2)", "%s+tag", "%s,v", "%s#3", "%s~", "{%s}", "%s!", "%s'"]) % s
         if s.lower() not in taken:
             taken.add(s.lower())
             return s
